@@ -28,7 +28,7 @@ type sweepStats struct {
 	queries, searches int64
 	tieAtK            int64 // NKeeper queries where the k-th and (k+1)-th distances tie
 	radiusOnBoundary  int64 // DistKeeper queries with a point exactly on the radius
-	relaxIdentity     bool // a known identity defect was established for this tree: compare values only
+	relaxIdentity     bool  // a known identity defect was established for this tree: compare values only
 	// roundingClass: set for the vantage-point tree only. A DistKeeper(r)
 	// result that lacks nothing but points at distance exactly r, for an r that
 	// is not a half-integer (an inexact square root), is the known rounding
